@@ -322,6 +322,101 @@ theorem C11_qa (F : Findings Gen.QualityAssurance) :
   rw [h2.2, h1.2]
   simpa using triples_canon_perm qaCategory F
 
+/-! ## the vulnerability report: three severity parts -/
+
+/-- reading one severity part back appends exactly the findings of that severity -/
+theorem rb_severityPart (sevName : String) (sev : Gen.Severity) (F : Findings Gen.Vulnerability)
+    (hs : sevName ∈ ["high", "medium", "low"]) (st : RBSt Gen.Vulnerability) (hin : st.inList = false) :
+    (rbRun vulnCategory st (severityPart vulnCategory sevName sev F)).inList = false ∧
+    (rbRun vulnCategory st (severityPart vulnCategory sevName sev F)).out =
+      st.out ++ triples (canon vulnCategory (F.filter fun e => severityOf e.1 = sev)) := by
+  have hk : ∀ e ∈ F.filter (fun e => severityOf e.1 = sev), e.1 ∈ vulnCategory.order := fun e _ => all_variants_known.2.1 e.1
+  have hb := readBack_blocks vulnCategory sigOK_vuln (F.filter fun e => severityOf e.1 = sev) hk
+  unfold severityPart
+  simp only
+  split
+  · rename_i hc
+    simp only [Bool.and_eq_true] at hc
+    have hnil : blocks vulnCategory (F.filter fun e => severityOf e.1 = sev) = [] := by simpa using hc.1
+    have h0 := hb st hin
+    rw [hnil, rbRun_nil] at h0
+    rw [rbRun_nil]
+    exact ⟨hin, h0.2⟩
+  · -- the heading is one plain line without the list marker
+    have hhead : ∃ h : String, linesOfLiteral (headingOf sevName).1 = [Line.text h] ∧ h ≠ "### Lines" := by
+      simp only [List.mem_cons, List.mem_singleton, List.not_mem_nil, or_false] at hs
+      rcases hs with rfl | rfl | rfl
+      · exact ⟨"## High Risk", by simp [headingOf, heading_literals_ok, linesOfLiteral_heading], by decide⟩
+      · exact ⟨"## Medium Risk", by simp [headingOf, heading_literals_ok, linesOfLiteral_heading], by decide⟩
+      · exact ⟨"## Low Risk", by simp [headingOf, heading_literals_ok, linesOfLiteral_heading], by decide⟩
+    obtain ⟨h, hl, hne⟩ := hhead
+    rw [hl, rbRun_append]
+    have h1 := rb_plain_text vulnCategory [h] st (by simp; exact fun e => hne e.symm) hin
+    simp only [List.map_cons, List.map_nil] at h1
+    have h2 := hb _ h1.1
+    exact ⟨h2.1, by rw [h2.2, h1.2]⟩
+
+/-- the three severities partition the findings -/
+theorem triples_by_severity (F : Findings Gen.Vulnerability) :
+    (triples (F.filter fun e => severityOf e.1 = .High) ++ triples (F.filter fun e => severityOf e.1 = .Medium) ++
+      triples (F.filter fun e => severityOf e.1 = .Low)).Perm (triples F) := by
+  induction F with
+  | nil => simp [triples]
+  | cons e es ih =>
+    have hcons : ∀ G : Findings Gen.Vulnerability, triples (e :: G) = triples [e] ++ triples G := by
+      intro G; simp [triples]
+    rw [hcons es]
+    cases hsev : severityOf e.1 with
+    | High =>
+      have h1 : (decide (Gen.Severity.High = Gen.Severity.Medium)) = false := by decide
+      have h2 : (decide (Gen.Severity.High = Gen.Severity.Low)) = false := by decide
+      simp only [List.filter_cons, hsev, h1, h2, decide_true, if_true, Bool.false_eq_true, if_false]
+      rw [hcons]
+      refine List.Perm.trans ?_ (List.Perm.append_left _ ih)
+      rw [List.perm_iff_count]; intro a; simp only [List.count_append]; omega
+    | Medium =>
+      have h1 : (decide (Gen.Severity.Medium = Gen.Severity.High)) = false := by decide
+      have h2 : (decide (Gen.Severity.Medium = Gen.Severity.Low)) = false := by decide
+      simp only [List.filter_cons, hsev, h1, h2, decide_true, if_true, Bool.false_eq_true, if_false]
+      rw [hcons]
+      refine List.Perm.trans ?_ (List.Perm.append_left _ ih)
+      rw [List.perm_iff_count]; intro a; simp only [List.count_append]; omega
+    | Low =>
+      have h1 : (decide (Gen.Severity.Low = Gen.Severity.High)) = false := by decide
+      have h2 : (decide (Gen.Severity.Low = Gen.Severity.Medium)) = false := by decide
+      simp only [List.filter_cons, hsev, h1, h2, decide_true, if_true, Bool.false_eq_true, if_false]
+      rw [hcons]
+      refine List.Perm.trans ?_ (List.Perm.append_left _ ih)
+      rw [List.perm_iff_count]; intro a; simp only [List.count_append]; omega
+
+/-- **C11, vulnerability part**: the entries read back from the vulnerability report are the findings, as a
+multiset, each attributed to the pattern whose section precedes it (whatever severities occur) -/
+theorem C11_vulnerability (F : Findings Gen.Vulnerability) :
+    ((rbRun vulnCategory ⟨none, false, []⟩ (vulnerabilityReport vulnCategory F)).out).Perm (triples F) := by
+  unfold vulnerabilityReport overviewLines
+  simp only [rbRun_append, List.append_assoc]
+  have hov := overviews_have_no_marker.2.1
+  have hno1 : "### Lines" ∉ Gen.sec_vuln_overview_before := fun h => hov (by simp [h])
+  have hno2 : "### Lines" ∉ Gen.sec_vuln_overview_after := fun h => hov (by simp [h])
+  have h1 := rb_plain_text vulnCategory Gen.sec_vuln_overview_before ⟨none, false, []⟩ hno1 rfl
+  have hpre : Gen.sec_vuln_overview_linePre ++ toString (totalEntries F) ++ Gen.sec_vuln_overview_linePost ≠ "### Lines" := by
+    intro e
+    have h2 : (Gen.sec_vuln_overview_linePre ++ toString (totalEntries F) ++ Gen.sec_vuln_overview_linePost).toList.getLast? = some ')' := by
+      simp [String.toList_append, Gen.sec_vuln_overview_linePost]
+    have h3 : ("### Lines" : String).toList.getLast? = some 's' := by decide
+    rw [e, h3] at h2
+    cases h2
+  have h2 := rb_plain_text vulnCategory [_] _ (by simp; exact fun e => hpre e.symm) h1.1
+  simp only [List.map_cons, List.map_nil] at h2
+  have h3 := rb_plain_text vulnCategory Gen.sec_vuln_overview_after _ hno2 h2.1
+  have h4 := rb_severityPart "high" .High F (by simp) _ h3.1
+  have h5 := rb_severityPart "medium" .Medium F (by simp) _ h4.1
+  have h6 := rb_severityPart "low" .Low F (by simp) _ h5.1
+  rw [h6.2, h5.2, h4.2, h3.2, h2.2, h1.2]
+  simp only [List.nil_append]
+  refine List.Perm.trans ?_ (triples_by_severity F)
+  exact List.Perm.append (List.Perm.append (triples_canon_perm _ _) (triples_canon_perm _ _)) (triples_canon_perm _ _)
+
 /-- **C11, a pattern's section appears iff the pattern has a finding** (within a category's blocks) -/
 theorem section_iff (c : Category P) (ok : SigOK c) (F : Findings P) (hk : ∀ e ∈ F, e.1 ∈ c.order) (p : P) (hp : p ∈ c.order)
     (s : String) (hs : c.sig p = some s) :
